@@ -97,3 +97,8 @@ TEXT["C19"] = dict(
     level="Exploration: stack-id vectors over all valid and invalid ids with repeats, unique values on every typed stack, record positions and n over {MIN,-1,0..size+1,MAX}; every LIST.* step compared with the reference; ADD additionally by an independent conservation ledger; the round trip must restore every stack exactly.",
     note="LIST.SET on an empty CODE stack addresses no record and is not judged (outside the statement).",
 )
+TEXT["C15"] = dict(
+    technique="runtime monitoring: resource monitor (counting/capping global allocator, process CPU clock with in-process watchdog, supervised worker processes mapping aborts and hangs to the running case)",
+    level="Exhaustive over (135 instructions with INTEGER/FLOAT operands x operand positions x 9 integer / 6 float probe values x 2 settings of the remaining operands), one supervised step per case on a tiny state, plus 10 growth programs under the default limits. The property is violated today in 33 recorded ways (no resource policy; max_points_in_program unused) - those are listed as known findings by exact (instruction, operand position:class, resource) signature; any other pair is a fresh violation.",
+    note="Bound per step: 1 MiB + 64 x state bytes + 64 x configured limits; hang = more than 3 (10) CPU-seconds in one step. Thresholds are 3+ orders of magnitude above normal cost, independent of machine load.",
+)
